@@ -8,6 +8,7 @@ import (
 	"context"
 	"encoding/json"
 	"fmt"
+	"github.com/cloudwego/dynamicgo/thrift/annotation"
 	"math"
 	"math/rand"
 	"sort"
@@ -32,6 +33,7 @@ type FldJ struct {
 	Ty   TyJ    `json:"ty"`
 	Hasd bool   `json:"hasd"` // the descriptor carries a parsed default value
 	Dflt SubV   `json:"dflt"` // its Thrift encoding
+	VM   string `json:"vm"`   // value mapping annotation: "" | jsconv (api.js_conv)
 }
 type DescJ struct {
 	Structs map[string][]FldJ `json:"structs"`
@@ -103,9 +105,16 @@ func printIDL(d DescJ) string {
 	for _, n := range names {
 		fmt.Fprintf(&sb, "struct %s {\n", n)
 		for _, f := range d.Structs[n] {
-			anno := ""
+			var ans []string
 			if len(f.Key) > 0 && string(f.Key) != f.Name {
-				anno = fmt.Sprintf(" (api.key = %q)", string(f.Key))
+				ans = append(ans, fmt.Sprintf("api.key = %q", string(f.Key)))
+			}
+			if f.VM == "jsconv" {
+				ans = append(ans, `api.js_conv = ""`)
+			}
+			anno := ""
+			if len(ans) > 0 {
+				anno = " (" + strings.Join(ans, ", ") + ")"
 			}
 			dflt := ""
 			if f.Hasd {
@@ -173,6 +182,9 @@ func dumpTy(td *thrift.TypeDescriptor, out map[string][]FldJ) TyJ {
 					req = "opt"
 				}
 				fj := FldJ{ID: int(f.ID()), Name: f.Name(), Key: B(f.Alias()), Req: req, Ty: dumpTy(f.Type(), out), Dflt: SubV{B: B{}}}
+				if f.ValueMappingType() == annotation.JSConv {
+					fj.VM = "jsconv"
+				}
 				if dv := f.DefaultValue(); dv != nil {
 					fj.Hasd = true
 					fj.Dflt = SubV{T: int(f.Type().Type()), B: B(dv.ThriftBinary())}
